@@ -41,7 +41,7 @@ CLAIMS = {
         "mode counts exactly the values >= threshold*largest and clamps, two_site_svd cuts strictly less than its threshold and keeps "
         "at least two. PARTIAL: the reconstruction identity |theta-AB|^2 = discarded weight, the isometry of the advertised factor and "
         "the agreement of the three distributions are checked numerically against a dense SVD on generated tensors (search), not yet "
-        "mechanised; binary64 accumulation is compared bit-exactly with the model but the inequality is proved over Q. Extended: the reconstruction identity is now mechanised over any commutative ring with involution (truncation_error_is_discarded_weight); source tie by translation as in C08; wide-range spectra. Exact ties at the relative cut (dyadic spectra, both LAPACK drivers bit-exact).",
+        "mechanised; binary64 accumulation is compared bit-exactly with the model but the inequality is proved over Q. Extended: the reconstruction identity is now mechanised over any commutative ring with involution (truncation_error_is_discarded_weight); source tie by translation as in C08; wide-range spectra. Exact ties at the relative cut (dyadic spectra, both LAPACK drivers bit-exact). Blocks of tiny or large norm with thresholds scaled along, nearly real blocks; un-squared reconstruction error against the norm of the discarded values.",
         COMMON_NOTE + "Modelled, not verified: LAPACK returns a valid SVD with non-increasing non-negative values.",
         "DESIGN.md §3 C09"),
     "C14": (
@@ -112,7 +112,7 @@ CLAIMS = {
         "exp(-i A(x)B) exactly (projector-splitting exactness for a rank-one generator inside the window) and the Krylov accuracy are "
         "not mechanised; they are covered by the search, which compares simulator.run(get_state=True) with Qiskit's Operator on random "
         "circuits over the full gate set, both orientations, all built-in initial states: amplitudes up to global phase and all one- and "
-        "adjacent two-site Pauli expectation values. Extended: theorem that contracting a one-site operator with a site tensor acts exactly on every amplitude (any ring, any chain); operator-identity tie per executed two-qubit gate (exp(-i generator) handed to the windowed TDVP = that gate's unitary incl. qubit order); repetition families, deep 8/9-qubit circuits, shuffled observable listings. Products of two different Paulis among the observables. Parameter objects that served a noisy multi-trajectory run before the noise-free run.",
+        "adjacent two-site Pauli expectation values. Extended: theorem that contracting a one-site operator with a site tensor acts exactly on every amplitude (any ring, any chain); operator-identity tie per executed two-qubit gate (exp(-i generator) handed to the windowed TDVP = that gate's unitary incl. qubit order); repetition families, deep 8/9-qubit circuits, shuffled observable listings. Products of two different Paulis among the observables. Parameter objects that served a noisy multi-trajectory run before the noise-free run. Initial-state objects that served an earlier run.",
         COMMON_NOTE + "Axioms: closed under the global context for the scheduling theorems; the real-number axioms for the C18 part.",
         "DESIGN.md §3 C02"),
     "C11": (
@@ -124,7 +124,7 @@ CLAIMS = {
         "centre of the state being read is, from the isometry of the real tensors). PARTIAL: that a centred local contraction equals "
         "the dense expectation value (isometry of the environments) is not mechanised here; the search compares every observable kind "
         "of the library on random entangled normalised states, plus norm, overlap and bitstring probability, and shuffled lists "
-        "through simulator.run, with the dense vector. Extended: centred_expectation_is_dense (left-isometric prefix, right-isometric suffix => sum over all basis strings = centre contraction; any ring, length, dimensions), merged two-site tensors; MPS.expect tied to that contraction on the real tensors; front-end attribution trace (serial/parallel); entangling two-site observables. User-defined operators sharing the gate name 'custom' on the same site(s).",
+        "through simulator.run, with the dense vector. Extended: centred_expectation_is_dense (left-isometric prefix, right-isometric suffix => sum over all basis strings = centre contraction; any ring, length, dimensions), merged two-site tensors; MPS.expect tied to that contraction on the real tensors; front-end attribution trace (serial/parallel); entangling two-site observables. User-defined operators sharing the gate name 'custom' on the same site(s). A second evaluation of the same state object (values unchanged, represented vector unchanged).",
         COMMON_NOTE,
         "DESIGN.md §3 C11"),
     "C01": (
@@ -149,7 +149,7 @@ CLAIMS = {
         "processes the model selects, in order (random circuits x random lists with duplicates and unsorted sites). The search "
         "enumerates the whole outcome tree of circuits with <= 2 two-qubit gates and compares the average with 'exact gate, then "
         "unit-time Lindblad channel of the local processes' at strengths g and g/2 (error must fall ~4x). PARTIAL: the O(g^2) remainder "
-        "and the exactness of gate application (C02) are not mechanised. Extended: dissipation sweep model/theorems and trace at unit step as in C01. First-order unravelling theorem as in C01. Selection rule of create_local_noise_model translated from the source.",
+        "and the exactness of gate application (C02) are not mechanised. Extended: dissipation sweep model/theorems and trace at unit step as in C01. First-order unravelling theorem as in C01. Selection rule of create_local_noise_model translated from the source. Noise trace and outcome-tree average through the public entry point (the bit-reversed circuit copy simulator.run hands to a trajectory).",
         COMMON_NOTE + "Axioms: standard-library real-number axioms for the theorems over R.",
         "DESIGN.md §3 C03"),
     "C06": (
@@ -209,7 +209,7 @@ CLAIMS = {
         "branches of measure_single_shot is forced (scripted choice) for random entangled states in the Z, X and Y bases and the product "
         "of the vectors handed to choice is compared with the dense Born probability; keys vs the model. Search: in-place measure() "
         "(probability and projected state, both outcomes) and weak simulations (counts, key range, no zero-probability outcome). "
-        "PARTIAL: basis rotation and numpy's choice are modelled, not verified. Extended: rotated-basis theorem (a local basis rotation keeps the site right-isometric); borderline noise strengths and run histories in the weak-run oracle. Registers of 64 and more sites (encodeZ, wide forced strings, 66-qubit weak run). The public one-shot entry point measure_shots(1, basis) with forced outcomes in all three bases; pool shots on X/Y eigenstates.",
+        "PARTIAL: basis rotation and numpy's choice are modelled, not verified. Extended: rotated-basis theorem (a local basis rotation keeps the site right-isometric); borderline noise strengths and run histories in the weak-run oracle. Registers of 64 and more sites (encodeZ, wide forced strings, 66-qubit weak run). The public one-shot entry point measure_shots(1, basis) with forced outcomes in all three bases; pool shots on X/Y eigenstates. State objects sampled in every basis and changed since.",
         COMMON_NOTE,
         "DESIGN.md §3 C12"),
     "C05": (
